@@ -42,7 +42,7 @@ def rule_r1(ctx) -> List[R.Inst]:
             insts.append(R.viol(rid, key, file, 0, f"converter {name}.convert does not exist: the pair cannot be converted",
                                 construct=f"missing {name}"))
             continue
-        fn = M.fn(q)
+        fn = M.nfn(q)
         tgt_game = c08.games_of(name)[1]
         probs = []
         if name not in exported:
